@@ -151,6 +151,8 @@ type Sim struct {
 	rburst     *simrt.Rand
 	deepYields int
 	longYields int
+	trackItems   bool            // record which item changes the applied partition entries carry
+	appliedItems map[string]bool // "kind/item id/version" of every item change some replica applied
 	rfault     *simrt.Rand
 	ryield     *simrt.Rand
 	nodes      []*simNode
@@ -320,6 +322,7 @@ func newSim(cfg W3Cfg, out *Outcome, wantLog bool) *Sim {
 	root := simrt.NewRand(cfg.Seed)
 	s.rnet = root.Split("net")
 	s.rburst = root.Split("burst")
+	s.appliedItems = map[string]bool{}
 	s.rfault = root.Split("fault")
 	s.ryield = root.Split("yield")
 	seedRuntime(cfg.Seed)
@@ -372,6 +375,28 @@ func newSim(cfg W3Cfg, out *Outcome, wantLog bool) *Sim {
 			return // a goroutine of a crashed incarnation that has not reached its parking place yet: the process is gone
 		}
 		a := applyRec{node: nodeId, inc: inc, group: group, index: e.Index, term: e.Term, dig: simrt.HashBytes(uint64(e.Type)+1, e.Data), typ: e.Type}
+		if s.trackItems && e.Type == raftpb.EntryNormal && len(e.Data) > 0 && !uuid.Equal(group, uuid.Nil) {
+			// which item changes this entry carries (kind 0 insert, 1 update, 2 remove / item id / vector version)
+			var ch pb.PartitionChange
+			if proto.Unmarshal(e.Data, &ch) == nil {
+				note := func(kind int, id []byte, v []float32) {
+					ver := 0
+					if len(v) > 0 {
+						ver = int(v[0])
+					}
+					key := fmt.Sprintf("%d/%x/%d", kind, id, ver)
+					s.post(func() { s.appliedItems[key] = true })
+				}
+				switch t := int(ch.GetType()); {
+				case t <= 2:
+					note(t, ch.GetId(), ch.GetValue())
+				default:
+					for _, it := range ch.GetBatchItems() {
+						note(t-3, it.GetId(), it.GetValue())
+					}
+				}
+			}
+		}
 		if s.onApplySync != nil && n != nil && n.alive && n.parts != nil && inc == n.inc {
 			s.onApplySync(n, group, e.Index)
 		}
